@@ -13,7 +13,7 @@ from mc.world import session_of, World1, num_in, num_out, stored_counters, journ
 POOL = [("SRV", "CLI"), ("ACC", "INI"), ("S1", "T1"), ("EXCH", "FIRM")]
 CFG = {"S": "SRV", "T": "CLI"}
 
-SLOTS_Q = ("app", "dec", "hb", "hole", "failed", "pdn", "relog")
+SLOTS_Q = ("app", "dec", "hb", "hole", "failed", "pdn", "relog", "grp")
 SLOTS_T = ("app", "dec", "hb", "hole", "failed", "pdn", "relog", "grp", "tr")
 
 
